@@ -56,7 +56,7 @@ fn cfg_classes(sc: &Scenario, info: &mut CaseInfo) {
     info.class(format!("flavour={:?}", sc.q.flavour));
     info.class(format!("handles={}", if sc.q.futures { "futures" } else { "plain" }));
     info.class(format!("N={}", sc.q.n()));
-    info.class(format!("requested_capacity={}", sc.q.cap));
+    info.class(format!("requested_capacity={}", sc.q.requested()));
     if sc.q.futures {
         info.class(format!("fut_spins={:?}", sc.q.spins()));
     } else {
@@ -149,7 +149,7 @@ fn seq_nontrivial(sc: &Scenario, ex: &Execution, info: &mut CaseInfo) -> bool {
         r
     };
     let not_ready = ex.stats.not_ready_poll + ex.stats.not_ready_send > 0;
-    let non_pow2 = (sc.q.cap as usize) != n;
+    let non_pow2 = (sc.q.requested() as usize) != n;
     let conv = has(CallKind::IntoSingle) || has(CallKind::IntoMulti);
     let removal = has(CallKind::DropRx) || has(CallKind::UnsubRx);
     info.class(format!("wrap={}", wrap));
@@ -185,6 +185,49 @@ fn c09_random(t: Tier) -> BoxedStrategy<Scenario> {
         false,
         seq_opts(),
     )
+}
+
+/// C03 on large rings (sequential, against the model): requested capacities 255..131072; the queue
+/// is filled to the brim and three sends over, a few values are taken and sent again (the Full
+/// boundary is crossed a second time after the ring index wrapped), then everything is drained.
+/// Optionally a second stream that lags (broadcast) so that the slowest stream is not the first.
+fn c03_large_strategy(_t: Tier) -> BoxedStrategy<Scenario> {
+    use crate::handles::{LARGE_CAPS, LARGE_CAP_BASE};
+    let cap = (0..LARGE_CAPS.len() as u8).prop_map(|i| LARGE_CAP_BASE + i).boxed();
+    (gen::qcfg(BOTH, FutMode::Mixed, cap, gen::wait_any()), 1u32..6, 1u32..6, any::<bool>(), any::<bool>())
+        .prop_map(|(q, take, over, lagging, two_senders)| {
+            let n = q.n() as u32;
+            let a = 0u16;
+            let mut ops = Vec::new();
+            if two_senders {
+                ops.push(Op::CloneTx { tx: a });
+            }
+            if lagging && q.flavour == Flavour::Broadcast {
+                ops.push(Op::AddStream { rx: a });
+            }
+            ops.push(Op::Repeat { times: n + over, body: vec![Op::TrySend { tx: a }], sample_after: vec![] });
+            ops.push(Op::Repeat { times: take, body: vec![Op::TryRecv { rx: a }], sample_after: vec![] });
+            ops.push(Op::Repeat { times: take + over, body: vec![Op::TrySend { tx: 40000 }], sample_after: vec![] });
+            ops.push(Op::Repeat { times: n + 1, body: vec![Op::TryRecv { rx: a }], sample_after: vec![] });
+            ops.push(Op::Repeat { times: take + over, body: vec![Op::TrySend { tx: a }], sample_after: vec![] });
+            ops.push(Op::Repeat { times: take + 1, body: vec![Op::TryRecv { rx: 40000 }], sample_after: vec![] });
+            Scenario {
+                q,
+                progs: vec![Prog { ops, ret: false }],
+                sched: Schedule::none(),
+                // no per-call step bound: dropping the last handle of a large ring walks all its slots
+                opts: ExecOpts { max_steps: 400_000_000, solo_base: None, ..seq_opts() },
+            }
+        })
+        .boxed()
+}
+
+fn c03_large_oracle(sc: &Scenario, ex: &Execution, info: &mut CaseInfo) -> Vec<Finding> {
+    let f = c09_oracle(sc, ex, info);
+    // non-trivial: the ring was filled (a refusal) and wrapped (more accepted than slots)
+    let refused = ex.calls.iter().any(|c| c.kind == CallKind::TrySend && matches!(c.res, Res::Send(SendOut::Full(_), _)));
+    info.nontrivial = refused && accepted(ex) > sc.q.n();
+    f
 }
 
 /// reduced alphabet for bounded-exhaustive enumeration
@@ -1593,6 +1636,12 @@ pub fn registry() -> Vec<PropDef> {
                     name: "while_streams_are_added",
                     source: Source::Random { strategy: addstream_strategy, cases: cases_fn!(3000, 60000) },
                     oracle: c03_oracle,
+                },
+                // large rings, single-threaded against the model (round-9 seed C03-10)
+                Part {
+                    name: "large_capacities",
+                    source: Source::RandomCostly { strategy: c03_large_strategy, cases: cases_fn!(44, 400) },
+                    oracle: c03_large_oracle,
                 },
             ],
             rule: "traffic profile with try_send bursts over requested capacities 0..9, plus the add_stream scenarios of C10 (streams added by several threads, from sole-handle and from shared parents, while producers run into the bound); oracle = counting bound per (accepted send, stream) plus no-loss; non-trivial = some send was refused and a later one accepted while a receive overlapped (the Full boundary was crossed under concurrency)",
